@@ -32,6 +32,7 @@ type glUnit struct {
 	pre   []string // imports
 	open  []string // namespaces opened
 	extra string   // text placed after the namespace header (section variables)
+	join  bool     // translate assignment-only `if`s as conditional expressions (no duplicated continuation)
 	items []glItem
 }
 
@@ -75,6 +76,9 @@ type translator struct {
 	tmpN      int
 	locals    map[string]bool // parameters and local variables (they shadow package names)
 	namedRes  []string        // named results (zero-initialised locals; a bare `return` returns them)
+	joinIfs   bool            // unit option: see glUnit.join
+	inForever bool            // the statement being translated is inside a `for { … }` (Go.forever): a return is `Iter.ret`
+	usesFuel  bool            // the function has a `for { … }`: extra parameter fuel_, result in Option
 	hoistOn   bool            // an effectful call met inside an expression is bound to a temporary first
 	hoistBuf  []string
 	refVars   map[string]bool // locals that are pointers into the receiver's store (see recvEffects.ref)
@@ -111,6 +115,7 @@ var externalTypes = map[string]string{
 	"time.Time": "Time", "time.Duration": "Int", "context.Context": "Ctx",
 	"mockable.Clock": "Gk.Clock", "sync.Mutex": "", "sync.RWMutex": "",
 	"def.Repository": "GoRepo",
+	"config": "", "sql.SelectValues": "", // ent: the client configuration / unselected columns embedded in every row object
 }
 
 // methods of library objects held in a field of the receiver that change that object:
@@ -152,6 +157,8 @@ var recvEffects = map[string]recvEffect{
 	"Scheduler.dispatcher.Dispatch":       {"GoSched.dispatch", "pair", false},
 	"Scheduler.eventQueue.Reserve":        {"GoSched.reserve", "state", false},
 	"Scheduler.clock.Now":                 {"GoSched.clockNow", "pure", false},
+	// the ent client (repository/ent/repository.go): statements against the database
+	"EntRepository.client.Task.Get": {"GoEnt.getRow", "pair", false},
 	// the cron store's timer (cron/cron.go): the schedule heap is a glue container
 	"CronStore.schedule.Len":  {"GoCron.schedLen", "pure", false},
 	"CronStore.schedule.Peek": {"GoCron.schedPeek", "pure", false},
@@ -192,6 +199,12 @@ var mapFields = map[string]bool{"volatileTaskRepo.record": true}
 
 // (promoted) methods of the receiver that only ask an oracle
 var recvPureMethods = map[string]string{"volatileTaskRepo.Peek": "GoVol.peek", "volatileTaskRepo.Pop": "GoVol.pop"}
+
+// statement builders of the ent client: `b.Exec(ctx)` runs the statement against the receiver's database
+var localEffectMethods = map[string]string{"EntRepository.Exec": "GoEnt.execUpdate", "EntRepository.Save": "GoEnt.saveCreate"}
+
+// named types of other packages used as conversions `pkg.T(x)`
+var pkgTypeConv = map[string]bool{"def.State": true, "task.State": true}
 
 var refStore = map[string]string{"InMemoryRepository": "GoMem.storeTask"}
 
@@ -317,13 +330,13 @@ func (t *translator) trTypeDecl(f *ast.File, name string, skipFields map[string]
 		fmt.Fprintf(&b, "structure %s where\n", name)
 		n := 0
 		for _, fl := range x.Fields.List {
-			if len(fl.Names) == 0 {
-				t.fail(fl, "embedded field in %s", name)
-			}
 			ty := ""
 			q := exprString(fl.Type)
 			if v, ok := externalTypes[q]; ok && v == "" {
-				continue // mutexes carry no state of the model
+				continue // mutexes (and ent's per-row plumbing) carry no state of the model
+			}
+			if len(fl.Names) == 0 {
+				t.fail(fl, "embedded field in %s", name)
 			}
 			for _, nm := range fl.Names {
 				if skipFields[nm.Name] {
@@ -421,6 +434,7 @@ var externalFuncs = map[string]string{
 	"def.IsRepositoryErr": "Go.def_IsRepositoryErr", "def.ErrInvalidTask": "Go.def_ErrInvalidTask",
 	"time.Date": "Go.time_Date", "time.April": "Go.time_April",
 	"time.ParseDuration": "Go.time_ParseDuration", "strconv.ParseInt": "Go.strconv_ParseInt",
+	"gen.IsNotFound": "Go.ent_IsNotFound",
 	"errors.Is": "Go.errors_Is", "context.Canceled": "Go.context_Canceled", "def.IsDefError": "Go.def_IsDefError",
 }
 
@@ -433,7 +447,7 @@ func (t *translator) isPkg(e ast.Expr) (string, bool) {
 		return id.Name, true
 	}
 	switch id.Name {
-	case "strings", "slices", "maps", "option", "time", "fmt", "errors", "strconv", "context":
+	case "strings", "slices", "maps", "option", "time", "fmt", "errors", "strconv", "context", "gen":
 		return id.Name, true
 	}
 	return "", false
@@ -633,7 +647,15 @@ func (t *translator) trComposite(x *ast.CompositeLit) string {
 		if len(x.Elts) == 0 {
 			return "Go.emptyMap"
 		}
-		t.fail(x, "non-empty map literal")
+		var kvs []string
+		for _, e := range x.Elts {
+			kv, ok := e.(*ast.KeyValueExpr)
+			if !ok {
+				t.fail(e, "map literal element")
+			}
+			kvs = append(kvs, "("+t.trExpr(kv.Key)+", "+t.trExpr(kv.Value)+")")
+		}
+		return "[" + strings.Join(kvs, ", ") + "]"
 	}
 	ty := t.trType(x.Type)
 	if ty == "Time" && len(x.Elts) == 0 {
@@ -753,6 +775,9 @@ func (t *translator) trCall(c *ast.CallExpr) string {
 			if v, ok := externalFuncs[q]; ok {
 				return "(" + v + t.trArgs(c.Args) + ")"
 			}
+			if pkgTypeConv[q] && len(c.Args) == 1 { // conversion to a named string type of another package
+				return "(Go.conv " + t.trType(f) + " " + t.trExpr(c.Args[0]) + ")"
+			}
 			if ns, ok := t.pkgNS[p]; ok {
 				if ns == "" {
 					ns = t.curNS
@@ -817,6 +842,7 @@ func (t *translator) resetFunc() {
 	t.funcParam = map[string]bool{}
 	t.refVars = map[string]bool{}
 	t.outParams = nil
+	t.usesFuel, t.inForever = false, false
 }
 
 func ind(n int) string { return strings.Repeat("  ", n) }
@@ -846,6 +872,9 @@ func (t *translator) retValue(rs []string, inLoop bool) string {
 	if inLoop {
 		return "(some " + v + ")"
 	}
+	if t.inForever {
+		return "(Go.Iter.ret " + v + ")"
+	}
 	return v
 }
 
@@ -861,8 +890,10 @@ func (t *translator) trStmts(stmts []ast.Stmt, k *cont, d int) string {
 		switch k.kind {
 		case "loop":
 			return ind(d) + "none"
-		case "fold":
+		case "fold", "join":
 			return ind(d) + k.vars
+		case "forever":
+			return ind(d) + "(Go.Iter.next " + k.vars + ")"
 		case "inline":
 			t.fail(nil, "%s: an inlined closure body ends without `return`", t.curFile)
 			return ""
@@ -872,9 +903,13 @@ func (t *translator) trStmts(stmts []ast.Stmt, k *cont, d int) string {
 	}
 	s, rest := stmts[0], stmts[1:]
 	inLoop := false
+	t.inForever = false
 	for c := k; c != nil; c = c.next {
 		if c.kind == "loop" {
 			inLoop = true
+		}
+		if c.kind == "forever" && !inLoop {
+			t.inForever = true
 		}
 	}
 	seq := func() *cont { // the continuation "rest, then k"
@@ -921,6 +956,8 @@ func (t *translator) trStmts(stmts []ast.Stmt, k *cont, d int) string {
 				v := "(" + recvEffects[key].lean + " " + leanIdent(t.recv) + t.trArgs(rc.Args) + ")"
 				if inLoop {
 					v = "(some " + v + ")"
+				} else if t.inForever {
+					v = "(Go.Iter.ret " + v + ")"
 				}
 				return ind(d) + v
 			}
@@ -929,6 +966,9 @@ func (t *translator) trStmts(stmts []ast.Stmt, k *cont, d int) string {
 			if c, ok := x.Results[0].(*ast.CallExpr); ok {
 				if sel, ok := c.Fun.(*ast.SelectorExpr); ok {
 					if id, ok := sel.X.(*ast.Ident); ok && id.Name == t.recv && t.mutating[t.recvType+"."+sel.Sel.Name] {
+						if t.inForever {
+							return ind(d) + "(Go.Iter.ret " + t.trExpr(c) + ")"
+						}
 						return ind(d) + t.trExpr(c) // (receiver', results…) of the callee is what this method returns
 					}
 				}
@@ -960,6 +1000,34 @@ func (t *translator) trStmts(stmts []ast.Stmt, k *cont, d int) string {
 			inner := &ast.IfStmt{Cond: be.Y, Body: x.Body, Else: elseStmt}
 			outer := &ast.IfStmt{Init: x.Init, Cond: be.X, Body: &ast.BlockStmt{List: []ast.Stmt{inner}}, Else: elseStmt}
 			return t.trStmts(append([]ast.Stmt{outer}, rest...), k, d)
+		}
+		if t.joinIfs && x.Init == nil && len(rest) > 0 && joinable(x) && !t.hasEffectCall(x.Cond) {
+			// an `if` that only assigns: bind the assigned variables to the value of a conditional expression and go on
+			// once (the continuation is not duplicated into the branches)
+			blk := &ast.BlockStmt{List: []ast.Stmt{x.Body}}
+			if x.Else != nil {
+				blk.List = append(blk.List, x.Else)
+			}
+			if vars := t.foldVars(blk); len(vars) > 0 {
+				pat := vars[0]
+				if len(vars) > 1 {
+					pat = "(" + strings.Join(vars, ", ") + ")"
+				}
+				jk := &cont{kind: "join", vars: pat}
+				var jb strings.Builder
+				jb.WriteString(ind(d) + "let " + pat + " := if " + t.trExpr(x.Cond) + " then\n")
+				jb.WriteString(t.trStmts(x.Body.List, jk, d+2) + "\n")
+				jb.WriteString(ind(d+1) + "else\n")
+				switch e := x.Else.(type) {
+				case nil:
+					jb.WriteString(ind(d+2) + pat + "\n")
+				case *ast.BlockStmt:
+					jb.WriteString(t.trStmts(e.List, jk, d+2) + "\n")
+				default:
+					jb.WriteString(t.trStmts([]ast.Stmt{e}, jk, d+2) + "\n")
+				}
+				return jb.String() + t.trStmts(rest, k, d)
+			}
 		}
 		var b strings.Builder
 		pre := ""
@@ -1092,6 +1160,9 @@ func (t *translator) trStmts(stmts []ast.Stmt, k *cont, d int) string {
 		return b.String()
 	case *ast.BranchStmt:
 		for c := k; c != nil; c = c.next {
+			if c.kind == "forever" && x.Tok == token.CONTINUE {
+				return ind(d) + "(Go.Iter.next " + c.vars + ")"
+			}
 			if c.kind == "fold" {
 				switch x.Tok {
 				case token.CONTINUE:
@@ -1108,6 +1179,20 @@ func (t *translator) trStmts(stmts []ast.Stmt, k *cont, d int) string {
 		}
 		t.fail(x, "unsupported branch statement %s", x.Tok)
 	case *ast.ForStmt:
+		if x.Init == nil && x.Cond == nil && x.Post == nil && len(rest) == 0 && k == nil {
+			// for { … }: left only by `return`. Go.forever runs the body at most fuel_ times (none = still looping);
+			// the variables the body assigns (the receiver, when a call changes it) are carried from round to round
+			vars := t.foldVars(x.Body)
+			pat := "()"
+			if len(vars) == 1 {
+				pat = vars[0]
+			} else if len(vars) > 1 {
+				pat = "(" + strings.Join(vars, ", ") + ")"
+			}
+			t.usesFuel = true
+			body := t.trStmts(x.Body.List, &cont{kind: "forever", vars: pat}, d+2)
+			return ind(d) + "Go.forever fuel_ " + pat + " (fun " + pat + " =>\n" + body + ")"
+		}
 		// for pair := recv.f.Oldest(); pair != nil; pair = pair.Next() { … }  ≡  range over the pairs, oldest first
 		if as, ok := x.Init.(*ast.AssignStmt); ok && len(as.Lhs) == 1 && len(as.Rhs) == 1 && x.Post != nil {
 			if id, ok := as.Lhs[0].(*ast.Ident); ok {
@@ -1312,19 +1397,47 @@ func (t *translator) recvFieldKey(e ast.Expr) (*ast.CallExpr, string, bool) {
 	if !ok {
 		return nil, "", false
 	}
-	fs, ok := sel.X.(*ast.SelectorExpr)
-	if !ok {
+	// the object the method is called on: a (possibly nested) field of the receiver
+	path := []string{sel.Sel.Name}
+	cur := sel.X
+	for {
+		fs, ok := cur.(*ast.SelectorExpr)
+		if !ok {
+			break
+		}
+		path = append([]string{fs.Sel.Name}, path...)
+		cur = fs.X
+	}
+	id, ok := cur.(*ast.Ident)
+	if !ok || t.recv == "" || id.Name != t.recv || len(path) < 2 {
 		return nil, "", false
 	}
-	id, ok := fs.X.(*ast.Ident)
-	if !ok || t.recv == "" || id.Name != t.recv {
-		return nil, "", false
-	}
-	key := t.recvType + "." + fs.Sel.Name + "." + sel.Sel.Name
+	key := t.recvType + "." + strings.Join(path, ".")
 	if _, ok := recvEffects[key]; !ok {
 		return nil, "", false
 	}
 	return c, key, true
+}
+
+// localEffectCall: `b.Exec(ctx)` / `b.Save(ctx)` where b is a statement builder (a local value or a builder chain):
+// the statement runs against the receiver's database.
+func (t *translator) localEffectCall(e ast.Expr) (c *ast.CallExpr, lean string, ok bool) {
+	c, isCall := e.(*ast.CallExpr)
+	if !isCall || t.recv == "" {
+		return
+	}
+	sel, isSel := c.Fun.(*ast.SelectorExpr)
+	if !isSel {
+		return
+	}
+	lean, found := localEffectMethods[t.recvType+"."+sel.Sel.Name]
+	if !found {
+		return
+	}
+	if id, isId := sel.X.(*ast.Ident); isId && id.Name == t.recv {
+		return nil, "", false
+	}
+	return c, lean, true
 }
 
 // recvFuncCall: a call of a package-level function that changes a field of the receiver handed to it.
@@ -1460,6 +1573,21 @@ func (t *translator) trSimple(s ast.Stmt, d int) string {
 					t.refVars[id.Name] = true
 				}
 			}
+			if lc, lean, ok := t.localEffectCall(x.Rhs[0]); ok {
+				r := leanIdent(t.recv)
+				names := []string{r}
+				for i, l := range x.Lhs {
+					n := exprString(l)
+					if n == "_" {
+						n = fmt.Sprintf("_r%d", i)
+					} else if x.Tok == token.DEFINE {
+						t.locals[n] = true
+					}
+					names = append(names, leanIdent(n))
+				}
+				sel := lc.Fun.(*ast.SelectorExpr)
+				return ind(d) + "let (" + strings.Join(names, ", ") + ") := (" + lean + " " + r + " " + t.trExpr(sel.X) + t.trArgs(lc.Args) + ")\n"
+			}
 			if rc, key, ok := t.recvFieldKey(x.Rhs[0]); ok && recvEffects[key].kind == "pair" {
 				r := leanIdent(t.recv)
 				names := []string{r}
@@ -1535,6 +1663,13 @@ func (t *translator) trSimple(s ast.Stmt, d int) string {
 					names = append(names, tmp)
 					root, upd := t.lhsUpdate(l, tmp)
 					post = append(post, ind(d)+"let "+root+" := "+upd+"\n")
+				}
+				if c := x.Rhs[0].(*ast.CallExpr); true {
+					if sel, ok := c.Fun.(*ast.SelectorExpr); ok {
+						if id, ok := sel.X.(*ast.Ident); ok && id.Name == t.recv && t.mutating[t.recvType+"."+sel.Sel.Name] {
+							names = append([]string{leanIdent(t.recv)}, names...) // the callee returns (receiver', results…)
+						}
+					}
 				}
 				return ind(d) + "let (" + strings.Join(names, ", ") + ") := " + t.trExpr(x.Rhs[0]) + "\n" + strings.Join(post, "")
 			}
@@ -1771,6 +1906,29 @@ func (t *translator) callsMutating(body *ast.BlockStmt, recv, rt string) bool {
 				found = true
 			}
 		}
+		if sel, ok := c.Fun.(*ast.SelectorExpr); ok {
+			if _, ok := localEffectMethods[rt+"."+sel.Sel.Name]; ok {
+				if id, isId := sel.X.(*ast.Ident); !isId || id.Name != recv {
+					found = true
+				}
+			}
+			// deep field effects: recv.a.b.M(...)
+			path := []string{sel.Sel.Name}
+			e := sel.X
+			for {
+				fs, ok := e.(*ast.SelectorExpr)
+				if !ok {
+					break
+				}
+				path = append([]string{fs.Sel.Name}, path...)
+				e = fs.X
+			}
+			if id, ok := e.(*ast.Ident); ok && id.Name == recv && len(path) >= 2 {
+				if eff, ok := recvEffects[rt+"."+strings.Join(path, ".")]; ok && eff.kind != "pure" {
+					found = true
+				}
+			}
+		}
 		if id, ok := c.Fun.(*ast.Ident); ok && id.Name == "delete" && len(c.Args) == 2 {
 			if sel, ok := c.Args[0].(*ast.SelectorExpr); ok {
 				if x, ok := sel.X.(*ast.Ident); ok && x.Name == recv && mapFields[rt+"."+sel.Sel.Name] {
@@ -1877,6 +2035,23 @@ func (t *translator) foldVars(body *ast.BlockStmt) []string {
 		return true
 	})
 	return vars
+}
+
+// joinable: the statement neither leaves the function nor a loop (no return, branch, panic, select, go, defer)
+func joinable(s ast.Stmt) bool {
+	ok := true
+	ast.Inspect(s, func(n ast.Node) bool {
+		switch x := n.(type) {
+		case *ast.ReturnStmt, *ast.BranchStmt, *ast.SelectStmt, *ast.GoStmt, *ast.DeferStmt, *ast.ForStmt, *ast.RangeStmt, *ast.FuncLit, *ast.SwitchStmt:
+			ok = false
+		case *ast.CallExpr:
+			if id, isId := x.Fun.(*ast.Ident); isId && id.Name == "panic" {
+				ok = false
+			}
+		}
+		return ok
+	})
+	return ok
 }
 
 func assignsTo(body *ast.BlockStmt, recv string) bool {
@@ -2051,6 +2226,10 @@ func (t *translator) trFunc(f *ast.File, it glItem) string {
 	}
 	if it.enter != "" && t.recv != "" {
 		body = ind(1) + "let " + leanIdent(t.recv) + " := (" + it.enter + " " + leanIdent(t.recv) + ")\n" + body
+	}
+	if t.usesFuel {
+		params = append([]string{"(fuel_ : Nat)"}, params...)
+		rty = "(Option " + rty + ")"
 	}
 	pos := t.fset.Position(fd.Pos())
 	rel, _ := filepath.Rel(t.root, pos.Filename)
@@ -2233,7 +2412,33 @@ func init() {
 	})
 }
 
+func init() {
+	f := "repository/ent/repository.go"
+	glUnits = append(glUnits,
+		glUnit{
+			out: "Gk/Gen/EntTask.lean", ns: "EntTask", pre: []string{"Gk.GoRt"},
+			items: cat(
+				it("repository/ent/gen/task/task.go", "type", "State"),
+				it("repository/ent/gen/task/task.go", "const", "StateScheduled", "StateDispatched", "StateCancelled", "StateDone", "StateErr", "DefaultState"),
+			),
+		},
+		glUnit{
+			out: "Gk/Gen/EntGen.lean", ns: "EntGen", pre: []string{"Gk.Gen.EntTask"},
+			items: it("repository/ent/gen/task.go", "type", "Task"),
+		},
+		glUnit{
+			out: "Gk/Gen/Ent.lean", ns: "Ent", pre: []string{"Gk.GenGlueEnt"}, join: true,
+			items: cat(
+				// the ent client and its statement builders are glue (Gk/GenGlueEnt.lean)
+				[]glItem{{kind: "lean", name: "abbrev EntRepository := Gk.GoEnt\n/-- generic `mapPointerToOption`: a nil-able pointer is already an `Option` -/\ndef mapPointerToOption {T : Type} (v : Option T) : Option T := v"}},
+				it(f, "var", "fakeTask"),
+				it(f, "func", "mapEntToDefTask", "EntRepository.AddTask", "EntRepository.GetById", "EntRepository.UpdateById", "EntRepository.Cancel", "EntRepository.MarkAsDispatched", "EntRepository.MarkAsDone"),
+			),
+		})
+}
+
 func (t *translator) trUnit(u glUnit) (text string, ndecl int, errs []string) {
+	t.joinIfs = u.join
 	var b strings.Builder
 	b.WriteString("/- GENERATED by `gkh golean` from the Go sources under /repo — do not edit.\n")
 	b.WriteString("   Regenerated by every check; the tie theorems in Gk/Props/Tie*.lean are about these definitions. -/\n")
@@ -2299,7 +2504,7 @@ func cmdGoLean(args []string) {
 		t := &translator{fset: token.NewFileSet(), root: *root, files: map[string]*ast.File{},
 			pkgNS: map[string]string{"def": "", "util": ""}, mutating: map[string]bool{}}
 		if u.ns != "Def" {
-			t.pkgNS = map[string]string{"def": "Def", "util": "Def", "sortabletask": "Sortabletask"}
+			t.pkgNS = map[string]string{"def": "Def", "util": "Def", "sortabletask": "Sortabletask", "gen": "EntGen", "task": "EntTask"}
 		}
 		t.curNS = u.ns
 		text, n, errs := t.trUnit(u)
